@@ -187,7 +187,18 @@ def build_order_cases(rng, count, next_id):
             if rng.random() < 0.5:
                 areas.append({"kind": "sub", "core": ext, "extent": ext, "product": "sub"})
             else:
-                areas.append({"kind": "proto", "core": ext, "extent": ext, "product": rng.choice("abc")})
+                # the core is a stretch of the extent (often a proper one: genes in the neighbourhood but outside the core)
+                walk = [b for s, e in ext["parts"] for b in range(s, e)]
+                first = rng.randrange(0, len(walk))
+                last = rng.randrange(first, len(walk))
+                if rng.random() < 0.3:
+                    first, last = 0, len(walk) - 1
+                inner, begin = [], walk[first]
+                for pos in range(first + 1, last + 2):
+                    if pos > last or walk[pos] != walk[pos - 1] + 1:
+                        inner.append([begin, walk[pos - 1] + 1])
+                        begin = walk[pos] if pos <= last else None
+                areas.append({"kind": "proto", "core": {"parts": inner, "strand": 1}, "extent": ext, "product": rng.choice("abc")})
         genes = []
         for _ in range(rng.randrange(2, 6)):
             loc = arc(4)
@@ -196,6 +207,18 @@ def build_order_cases(rng, count, next_id):
                 loc["parts"] = loc["parts"][::-1]
             if all(g["loc"] != loc for g in genes):
                 genes.append({"loc": loc, "core_for": sorted(rng.sample("abc", rng.randrange(0, 3)))})
+        if circ and rng.random() < 0.3:
+            # a protocluster whose core spans the origin inside a wider neighbourhood, with genes annotated as core genes
+            # for its product inside the core and in the neighbourhood only
+            reach = rng.randrange(1, 3)
+            side = rng.randrange(2, 4)
+            areas.append({"kind": "proto", "core": {"parts": [[length - reach, length], [0, reach]], "strand": 1},
+                          "extent": {"parts": [[length - reach - side, length], [0, reach + side]], "strand": 1}, "product": "c"})
+            del genes[3:]   # (the trace module orders genes by enumeration: keep records small)
+            for loc in ({"parts": [[length - 1, length]], "strand": 1}, {"parts": [[reach + 1, reach + 2]], "strand": -1},
+                        {"parts": [[length - reach - 2, length - reach - 1]], "strand": 1}):
+                if all(g["loc"] != loc for g in genes):
+                    genes.append({"loc": loc, "core_for": ["c"]})
         uni = {"L": length, "circ": circ, "genes": genes, "areas": areas}
         build = [{"op": "AddSub" if a["kind"] == "sub" else "AddProto", "arg": i + 1} for i, a in enumerate(areas)]
         rng.shuffle(build)
